@@ -13,6 +13,7 @@ from harness.model import T
 from harness.props.c01 import compare_load, load_outcome
 from harness.props.c05 import plain_doc
 from harness.props import v1streams
+from harness.props import c12_hist
 
 SETTINGS = {
     'key_transform_with_dump': ['SNAKE', 'PASCAL'],
@@ -281,6 +282,10 @@ def run_default(ctx: C.Ctx):
         outs = ctx.driver.run(reqs)
         for (case, out, built), o_ in zip(pend, outs):
             compare_load(ctx, 'cascade:load-model', case, out, o_, built)
+    # ---- histories over a nested class shared by several roots, Union holders with a Meta of their own, lazily reached holders
+    rule = ctx.rule
+    c12_hist.run_all(ctx)
+    ctx.rule = rule + ' ' + c12_hist.RULE
 
 
 # --------------------------------------------------------------------------- load-side cascade, judged against a twin class
@@ -596,6 +601,10 @@ def run_v1(ctx: C.Ctx):
         finally:
             built.close()
     run_v1_unions(ctx, rng, n, reqs, pend)
+    # ---- one nested class shared by several v1 roots, in one history (generator of its own: the sequences above are untouched)
+    rule = ctx.rule
+    c12_hist.run_shared_v1(ctx, v1streams.sub_rng(ctx, 'v1-shared'))
+    ctx.rule = rule + ' ' + c12_hist.RULE_V1
     if ctx.model_available:
         outs = ctx.driver.run(reqs)
         for (case, out, built), o_ in zip(pend, outs):
